@@ -5,8 +5,7 @@ ONLY property theorems live here (helper lemmas: InToto/Proofs/Glob.lean).
 Model: InToto/Model/Glob.lean (byte-level mirror of in_toto/match.go, `bytewise := false`
 is the repaired star loop).  Spec: InToto/Spec/Glob.lean.
 -/
-import InToto.Model.Glob
-import InToto.Spec.Glob
+import InToto.Proofs.Glob
 
 namespace InToto.C17
 open InToto.Glob InToto.GlobSpec
@@ -15,6 +14,26 @@ open InToto.Glob InToto.GlobSpec
 def runes (b : Bytes) : List Nat := b.map UInt8.toNat
 
 def Ascii (b : Bytes) : Prop := ∀ x ∈ b, x < 128
+
+/-- The executable decision procedure used in the driver decides the declarative relation. -/
+theorem matchItems_iff (is : List Item) (n : List Nat) :
+    matchItems is n = true ↔ Matches is n :=
+  InToto.GlobProofs.matchItems_iff is n
+
+/-- C17 (ASCII, unbounded lengths): a name is in `Set.Filter(pattern)` exactly when the pattern
+    is well-formed under the documented grammar and matches the *whole* name, with `*` matching
+    any sequence (including `/`), `?` one character, classes with ranges and negation, backslash
+    escapes, every other character itself. -/
+theorem correct_ascii (p n : Bytes) (hp : Ascii p) (hn : Ascii n) :
+    filterHas false p n = true ↔
+      ∃ is, parsePat (runes p) = some is ∧ Matches is (runes n) :=
+  InToto.GlobProofs.correct_ascii p n hp hn
+
+/-- C17: a malformed pattern (dangling backslash, unterminated or empty class, bad range)
+    matches nothing. -/
+theorem malformed_matches_nothing (p n : Bytes) (hp : Ascii p) (hn : Ascii n)
+    (h : parsePat (runes p) = none) : filterHas false p n = false :=
+  InToto.GlobProofs.malformed p n hp hn h
 
 /-- `*` crosses `/` (the documented difference to path.Match): `*` vs `a/b/c`. -/
 theorem star_crosses_slash : filterHas false [0x2A] [0x61, 0x2F, 0x62, 0x2F, 0x63] = true := by
